@@ -99,79 +99,7 @@ def run(ctx):
     if len(eff) != 1:
         r.violate("Doctype::remove", "Doctype::remove no longer sets its removed flag", None)
 
-    # ------------------------------------------------------------------ R07.2
-    r = ctx.rule("R07.2", "Element operations edit the documented place: prepend -> after the start tag (front), append -> before the end tag (back), after -> after the end tag or, for void elements, after the start tag (front), set_inner_content/replace/remove/remove_and_keep_content as documented; content operations are no-ops on elements that cannot have content", "E-AST", floor=9)
-    from .c04 import clause_stack_directive
-    clause_stack_directive(r, idx)
-    from .c16 import clause_void_list
-    clause_void_list(r, idx)
-    def one(name):
-        return idx.one(name, owner="Element")
-    def effs(name):
-        return [(e[0], e[1]) for e in mutation_effects(one(name).node)]
-    def guarded_by_can_have_content(name, node_filter):
-        f = one(name)
-        res = []
-        for n, p in walk_path(f.node["body"]):
-            if node_filter(n):
-                res.append(any(br == "then" and (i["cond"].get("s") or "").replace(" ", "") == "self.can_have_content" for i, br in enclosing_ifs(p)))
-        return res
-    is_edit = lambda n: n.get("k") == "MethodCall" and n["method"] in ("push_back", "push_front", "replace", "remove", "clear", "remove_content")
-    table = {
-        "prepend_chunk": [("self.start_tag.mutations.mutate().content_after", "push_front")],
-        "append_chunk": [("self.end_tag_mutations_mut().content_before", "push_back")],
-        "set_inner_content_chunk": [("self.start_tag.mutations.mutate().content_after", "push_front")],
-    }
-    for name, want in table.items():
-        got = effs(name)
-        r.inst("Element::" + name, sample={"effects": got})
-        if got != want:
-            r.violate("Element::" + name, f"Element::{name} edits {got}, documented: {want}", None)
-        g = guarded_by_can_have_content(name, is_edit)
-        if not g or not all(g):
-            r.violate("Element::" + name + "|void", f"Element::{name} is not a no-op for elements that cannot have content", None)
-    # set_inner_content also removes the existing content first
-    sic = one("set_inner_content_chunk")
-    calls = [n["method"] for n in walk(sic.node["body"]) if n.get("k") == "MethodCall" and n["recv"].get("s") == "self"]
-    r.inst("Element::set_inner_content|removes-content", sample={"self_calls": calls})
-    if "remove_content" not in calls:
-        r.violate("Element::set_inner_content|removes-content", "set_inner_content no longer removes the element's existing content", None)
-    # after: if can_have_content -> end tag content_after else start tag content_after, push_front
-    ac = one("after_chunk")
-    ok = False
-    for n in walk(ac.node["body"]):
-        if n.get("k") == "MethodCall" and n["method"] == "push_front" and n["recv"].get("k") == "If":
-            i = n["recv"]
-            c = (i["cond"].get("s") or "").replace(" ", "")
-            t = "".join((x.get("e", {}).get("s") or "") for x in i["then"]).replace(" ", "")
-            e = "".join((x.get("e", {}).get("s") or "") for x in i["else"]["body"]).replace(" ", "") if i.get("else") else ""
-            ok = c == "self.can_have_content" and t == "&mutself.end_tag_mutations_mut().content_after" and e == "&mutself.start_tag.mutations.mutate().content_after"
-    r.inst("Element::after_chunk")
-    if not ok:
-        r.violate("Element::after_chunk", "Element::after no longer prepends to the end tag's content_after (or to the start tag's for elements without content)", None)
-    bf = effs("before")
-    r.inst("Element::before", sample={"effects": bf})
-    if bf != [("self.start_tag.mutations.mutate().content_before", "push_back")]:
-        r.violate("Element::before", f"Element::before edits {bf}", None)
-    for name, want_start, need_rc in (("replace_chunk", "replace", True), ("remove", "remove", True), ("remove_and_keep_content", "remove", False)):
-        f = one(name)
-        src = [(".".join(chain(n["recv"])), n["method"]) for n in walk(f.node["body"]) if n.get("k") == "MethodCall" and n["method"] in ("replace", "remove", "remove_content")]
-        r.inst("Element::" + name, sample={"calls": src})
-        start_ok = any(m == want_start and (t.startswith("self.start_tag")) for t, m in src)
-        end_ok = ("self.end_tag_mutations_mut()", "remove") in src
-        rc = ("self", "remove_content") in src
-        if not start_ok or not end_ok or rc != need_rc:
-            r.violate("Element::" + name, f"Element::{name} performs {src}; documented: start tag {want_start}, end tag removed, content {'removed' if need_rc else 'kept'}", None)
-        g = guarded_by_can_have_content(name, lambda n: n.get("k") == "MethodCall" and n["method"] in ("remove", "remove_content") and "end_tag_mutations_mut" in ".".join(chain(n["recv"])) or (n.get("k") == "MethodCall" and n["method"] == "remove_content"))
-        if not g or not all(g):
-            r.violate("Element::" + name + "|void", f"Element::{name}: end-tag/content edits are not restricted to elements that can have content", None)
-    stn = one("set_tag_name")
-    w = [(n["left"].get("s") or "").replace(" ", "") for n in walk(stn.node["body"]) if n.get("k") == "Assign"]
-    c = [n["method"] for n in walk(stn.node["body"]) if n.get("k") == "MethodCall" and (n["recv"].get("s") or "").replace(" ", "") == "self.start_tag"]
-    r.inst("Element::set_tag_name", sample={"assigns": w, "start_tag_calls": c})
-    g = guarded_by_can_have_content("set_tag_name", lambda n: n.get("k") == "Assign" and "modified_end_tag_name" in (n["left"].get("s") or ""))
-    if w != ["self.modified_end_tag_name"] or c != ["set_name_raw"] or not g or not all(g):
-        r.violate("Element::set_tag_name", "set_tag_name must rename the start tag and (iff the element can have content) record the name for its end tag", None)
+    rule_element_ops(ctx, idx)
 
     # ------------------------------------------------------------------ R07.3
     r = ctx.rule("R07.3", "serialisation order of a mutated token: content_before, then the token itself or (if removed) its replacement, then content_after; replace() removes the token and clears an earlier replacement", "E-AST", floor=5)
@@ -255,6 +183,10 @@ def run(ctx):
     _aut7 = _a7()
     rule_attr_typestate(ctx, _i7(), _aut7, _G7(_aut7), mir, rid="R07.8")
 
+    # ------------------------------------------------------------------ R07.9 (= R05.1)
+    from .c05 import rule_activation_balance
+    rule_activation_balance(ctx, idx, mir, rid="R07.9")
+
     ctx.not_decided += ["that the composition of arbitrary operation scripts equals the reference edit (run-time)"]
     return ("API-to-mutation mapping read from the expanded syntax tree (28 token methods cross-checked as siblings and against the documented table, "
             "9 Element operations), serialisation order of mutated tokens, transfer of element-level end-tag edits, and the emission gate for removed content.")
@@ -290,6 +222,10 @@ def rule_edits_not_lost(ctx, mir, rid="R07.4"):
     # ------------------------------------------------------------------ R07.4
     r = ctx.rule(rid, "edits are not lost: write-implies-invalidate (C01 R01.5), removal of an attribute removes every duplicate (C16 R16.2), the element's own end-tag edits are applied before user end-tag handlers run", "E-MIR", floor=3)
     sm.clause_eq_case_insensitive(r, mir)
+    if rid == "R07.4":
+        # a rejected edit must leave the raw bytes in place (C08 R08.6 carries the same clause itself)
+        from .c08 import clause_raw_invalidated_after_success
+        clause_raw_invalidated_after_success(r, mir)
     ra = mir.fn("Attributes::remove_attribute")
     bulk = [callee_key(t) for bi, t in ra.calls(r"retain|extract_if")]
     single = [bi for bi, t in ra.calls(r"Vec::remove$|swap_remove$")]
@@ -314,3 +250,78 @@ def rule_edits_not_lost(ctx, mir, rid="R07.4"):
     if not w or not c2:
         r.violate("into_end_tag_handler|transfers", "into_end_tag_handler no longer transfers both the modified end tag name and the end-tag mutations", ie.loc())
 
+
+def rule_element_ops(ctx, idx, rid="R07.2"):
+    # ------------------------------------------------------------------ R07.2
+    r = ctx.rule(rid, "Element operations edit the documented place: prepend -> after the start tag (front), append -> before the end tag (back), after -> after the end tag or, for void elements, after the start tag (front), set_inner_content/replace/remove/remove_and_keep_content as documented; content operations are no-ops on elements that cannot have content", "E-AST", floor=9)
+    from .c04 import clause_stack_directive
+    clause_stack_directive(r, idx)
+    from .c16 import clause_void_list
+    clause_void_list(r, idx)
+    def one(name):
+        return idx.one(name, owner="Element")
+    def effs(name):
+        return [(e[0], e[1]) for e in mutation_effects(one(name).node)]
+    def guarded_by_can_have_content(name, node_filter):
+        f = one(name)
+        res = []
+        for n, p in walk_path(f.node["body"]):
+            if node_filter(n):
+                res.append(any(br == "then" and (i["cond"].get("s") or "").replace(" ", "") == "self.can_have_content" for i, br in enclosing_ifs(p)))
+        return res
+    is_edit = lambda n: n.get("k") == "MethodCall" and n["method"] in ("push_back", "push_front", "replace", "remove", "clear", "remove_content")
+    table = {
+        "prepend_chunk": [("self.start_tag.mutations.mutate().content_after", "push_front")],
+        "append_chunk": [("self.end_tag_mutations_mut().content_before", "push_back")],
+        "set_inner_content_chunk": [("self.start_tag.mutations.mutate().content_after", "push_front")],
+    }
+    for name, want in table.items():
+        got = effs(name)
+        r.inst("Element::" + name, sample={"effects": got})
+        if got != want:
+            r.violate("Element::" + name, f"Element::{name} edits {got}, documented: {want}", None)
+        g = guarded_by_can_have_content(name, is_edit)
+        if not g or not all(g):
+            r.violate("Element::" + name + "|void", f"Element::{name} is not a no-op for elements that cannot have content", None)
+    # set_inner_content also removes the existing content first
+    sic = one("set_inner_content_chunk")
+    calls = [n["method"] for n in walk(sic.node["body"]) if n.get("k") == "MethodCall" and n["recv"].get("s") == "self"]
+    r.inst("Element::set_inner_content|removes-content", sample={"self_calls": calls})
+    if "remove_content" not in calls:
+        r.violate("Element::set_inner_content|removes-content", "set_inner_content no longer removes the element's existing content", None)
+    # after: if can_have_content -> end tag content_after else start tag content_after, push_front
+    ac = one("after_chunk")
+    ok = False
+    for n in walk(ac.node["body"]):
+        if n.get("k") == "MethodCall" and n["method"] == "push_front" and n["recv"].get("k") == "If":
+            i = n["recv"]
+            c = (i["cond"].get("s") or "").replace(" ", "")
+            t = "".join((x.get("e", {}).get("s") or "") for x in i["then"]).replace(" ", "")
+            e = "".join((x.get("e", {}).get("s") or "") for x in i["else"]["body"]).replace(" ", "") if i.get("else") else ""
+            ok = c == "self.can_have_content" and t == "&mutself.end_tag_mutations_mut().content_after" and e == "&mutself.start_tag.mutations.mutate().content_after"
+    r.inst("Element::after_chunk")
+    if not ok:
+        r.violate("Element::after_chunk", "Element::after no longer prepends to the end tag's content_after (or to the start tag's for elements without content)", None)
+    bf = effs("before")
+    r.inst("Element::before", sample={"effects": bf})
+    if bf != [("self.start_tag.mutations.mutate().content_before", "push_back")]:
+        r.violate("Element::before", f"Element::before edits {bf}", None)
+    for name, want_start, need_rc in (("replace_chunk", "replace", True), ("remove", "remove", True), ("remove_and_keep_content", "remove", False)):
+        f = one(name)
+        src = [(".".join(chain(n["recv"])), n["method"]) for n in walk(f.node["body"]) if n.get("k") == "MethodCall" and n["method"] in ("replace", "remove", "remove_content")]
+        r.inst("Element::" + name, sample={"calls": src})
+        start_ok = any(m == want_start and (t.startswith("self.start_tag")) for t, m in src)
+        end_ok = ("self.end_tag_mutations_mut()", "remove") in src
+        rc = ("self", "remove_content") in src
+        if not start_ok or not end_ok or rc != need_rc:
+            r.violate("Element::" + name, f"Element::{name} performs {src}; documented: start tag {want_start}, end tag removed, content {'removed' if need_rc else 'kept'}", None)
+        g = guarded_by_can_have_content(name, lambda n: n.get("k") == "MethodCall" and n["method"] in ("remove", "remove_content") and "end_tag_mutations_mut" in ".".join(chain(n["recv"])) or (n.get("k") == "MethodCall" and n["method"] == "remove_content"))
+        if not g or not all(g):
+            r.violate("Element::" + name + "|void", f"Element::{name}: end-tag/content edits are not restricted to elements that can have content", None)
+    stn = one("set_tag_name")
+    w = [(n["left"].get("s") or "").replace(" ", "") for n in walk(stn.node["body"]) if n.get("k") == "Assign"]
+    c = [n["method"] for n in walk(stn.node["body"]) if n.get("k") == "MethodCall" and (n["recv"].get("s") or "").replace(" ", "") == "self.start_tag"]
+    r.inst("Element::set_tag_name", sample={"assigns": w, "start_tag_calls": c})
+    g = guarded_by_can_have_content("set_tag_name", lambda n: n.get("k") == "Assign" and "modified_end_tag_name" in (n["left"].get("s") or ""))
+    if w != ["self.modified_end_tag_name"] or c != ["set_name_raw"] or not g or not all(g):
+        r.violate("Element::set_tag_name", "set_tag_name must rename the start tag and (iff the element can have content) record the name for its end tag", None)
